@@ -35,6 +35,10 @@ def c02() -> int:
     fsx(c, RES + ({"variant": "core", "gas": True, "mechs": ("thirsty", "tiny_thirsty", "ice"), "name": "W-res/energy"},), ("hivemc.bundles", "c02", {}),
         K=2 if quick else 3, H=7 if quick else 9)
     fsx(c, ("hivemc.w_prec", "make", {}), ("hivemc.bundles", "c02", {}), K=2 if quick else 3, H=6 if quick else 8)
+    # every resource with TWO slots (two plugs per type, two stalls): several holders at once, so a double release or a
+    # double claim is not masked by the models' own 0 / total guards
+    fsx(c, RES + ({"variant": "core", "slots": 2, "low_energy": False, "name": "W-res/two-slots"},), ("hivemc.bundles", "c02", {}), K=3, H=5 if quick else 7,
+        needs=["c02:two_holders"])
     bisim(c, RES + ({"variant": "core", "pairs": False},), K=1 if quick else 2, H=3 if quick else 4)
     return c.finish()
 
